@@ -67,7 +67,7 @@ func init() {
 		}
 		in.p.assume(c)
 		in.p.nFeasQ++
-		if r, _ := in.p.check(in.p.C.True(), in.x.Lim.FeasMS); r == smt.Unsat {
+		if r, _, _, _ := in.p.solve(in.p.C.True(), in.x.Lim.FeasMS, false); r == smt.Unsat {
 			panic(abortPath{"infeasible", "assumption unsatisfiable"})
 		}
 		return nil
@@ -81,7 +81,7 @@ func init() {
 		msg := in.str(args[1])
 		ok := false
 		if !c.IsTrue() {
-			r, _ := in.p.check(in.p.C.Not(c), in.x.Lim.ObligMS)
+			r, _, _, _ := in.p.solve(in.p.C.Not(c), in.x.Lim.ObligMS, false)
 			ok = r == smt.Sat
 		}
 		in.p.mustFail = append(in.p.mustFail, mustFail{msg, ok})
